@@ -401,7 +401,13 @@ where
             }
         }
 
-        self.idle.entry(token).or_default().push(connection);
+        let max_idle = self.config.max_idle_per_host;
+        let idle = self.idle.entry(token).or_default();
+        if idle.len() < max_idle {
+            idle.push(connection);
+        } else {
+            trace!(?token, "idle connection limit reached, dropping connection");
+        }
     }
 
     fn pop(&mut self, token: Token) -> Option<C> {
